@@ -293,7 +293,7 @@ pub fn harness_a(a: &Args, shared: &SharedReport, th: bool, prop: &str) {
         if (ci as u64) % a.nshards != a.shard {
             continue;
         }
-        let max_exec = if th { 40_000 } else { 2_500 };
+        let max_exec = if th { 60_000 } else { 8_000 };
         let mut ex = Explorer::new(bound, max_exec);
         let mut outcomes: BTreeSet<String> = BTreeSet::new();
         let rvbase = replay_value(&case.model, &case.cfg, &["e2a"]);
@@ -537,7 +537,7 @@ pub fn run_c05(a: &Args, shared: &SharedReport) {
         let mut r = shared.lock().unwrap();
         r.rule = "every schedule of the real worker threads at their hook points (lock, condition wait, notify_one choice, yield points before shared-map accesses) up to the preemption bound, for each (model, strategy, threads, block size, stop reason) case and each job-market case; each schedule is one execution of the real code; non-trivial = all (>= 2 threads)".into();
         r.bounds = json!({"preemption_bound": if th {3} else {2}, "checker_cases": "8 zoo graphs x {bfs,dfs,on_demand} x threads x block, + finish_when / target / model panic / dfs+symmetry / simulation cases", "threads": if th {vec![2,3]} else {vec![2]},
-            "market_cases": "5 job trees x {normal, early return, panic} x workers; 2 workers: preemption bound 4 (thorough: unbounded), 3 workers: bound 2 (3)", "execution_cap_per_case": if th {40000} else {2500}, "horizon_steps": 5000});
+            "market_cases": "5 job trees x {normal, early return, panic} x workers; 2 workers: preemption bound 4 (thorough: unbounded), 3 workers: bound 2 (3)", "execution_cap_per_case": if th {60000} else {8000}, "horizon_steps": 5000});
     }
     harness_b(a, shared, th);
     harness_a(a, shared, th, "C05");
